@@ -55,8 +55,10 @@ static J run_format(const J& c)
     auto args = c["args"].as_bytes_list();
     std::string via = c["via"].str();
     return guarded([&](J& o) {
-        auto f = nitro::format(fmt);
-        if (via == "mod")
+        // via "nf": the formatter made by the user-defined literal operator (called as a function: the text is not
+        // known at compile time)
+        auto f = via == "nf" ? operator""_nf(fmt.c_str(), fmt.size()) : nitro::format(fmt);
+        if (via == "mod" || via == "nf")
         {
             for (auto& a : args)
                 f % a;
